@@ -36,6 +36,9 @@ struct Case {
 	/// blocks mined after the wallet under test last refreshed (not observed by it)
 	stale: u64,
 	others: u32,
+	/// the step's own arguments ask for a fresh TTL (ttl_blocks = 5) on top of the incoming cutoff
+	#[serde(default)]
+	own_ttl: bool,
 }
 
 #[derive(Clone, Debug, Serialize, Deserialize)]
@@ -141,7 +144,13 @@ fn run_case_inner(w: &World, c: &Case) -> Result<String, (String, String)> {
 	let sname = format!("{:?}", c.step);
 	let res = catch(|| match c.step {
 		Step::ReceiveTx => t.receive(&slate, None).map(|_| ()),
-		Step::ProcessInvoice => t.process_invoice(&slate, default_args(0)).map(|_| ()),
+		Step::ProcessInvoice => {
+			let mut pa = default_args(0);
+			if c.own_ttl {
+				pa.ttl_blocks = Some(5);
+			}
+			t.process_invoice(&slate, pa).map(|_| ())
+		}
 		Step::FinalizeOwner => t.finalize(&slate).map(|_| ()),
 		Step::FinalizeForeign => t.foreign_finalize(&slate, false).map(|_| ()),
 	});
@@ -328,7 +337,10 @@ pub fn run(_args: &[String]) -> i32 {
 		for cut in [Cut::Zero, Cut::One, Cut::HMinus1, Cut::H, Cut::HPlus1, Cut::Max].iter() {
 			for stale in (if thorough { vec![0u64, 1, 2] } else { vec![0u64, 2] }).iter() {
 				for others in (if thorough { vec![0u32, 1, 2] } else { vec![0u32, 2] }).iter() {
-					cases.push(Case { step: *step, cut: *cut, stale: *stale, others: *others });
+					cases.push(Case { step: *step, cut: *cut, stale: *stale, others: *others, own_ttl: false });
+					if *step == Step::ProcessInvoice {
+						cases.push(Case { step: *step, cut: *cut, stale: *stale, others: *others, own_ttl: true });
+					}
 				}
 			}
 		}
